@@ -8,7 +8,14 @@ VARIABLES hist, done
 Depth == atoi(IOEnv.GEN_DEPTH)
 GFlow == IOEnv.GEN_FLOW
 Menu == IOEnv.GEN_MENU
-Allowed == Menu = "mid" /\ Len(hist) = 1 => act'.a \in {"Tamper", "Reencode"}
+\* GEN_MENU = "sweep": Sign (library, explicit hash, message given) - Tamper (one bit of signature or message) - Verify (library,
+\* the SAME parameter set): the shape whose bit position the harness then sweeps over every bit
+Allowed == /\ Menu = "mid" /\ Len(hist) = 1 => act'.a \in {"Tamper", "Reencode"}
+           /\ Menu = "sweep" =>
+                /\ Len(hist) = 0 => act'.a = "Sign" /\ act'.by = "spsdk" /\ ~act'.P.pre /\ act'.P.hash # "default"
+                /\ Len(hist) = 1 => act'.a = "Tamper" /\ act'.what \in {"sigbit", "msgbit"}
+                /\ Len(hist) = 2 => act'.a = "Verify" /\ act'.by = "spsdk" /\ ~act'.Q.pre
+                                     /\ act'.Q.hash = hist[1].P.hash /\ act'.Q.pad = hist[1].P.pad
 GInit == Init /\ obj.flow = GFlow /\ hist = <<>> /\ done = FALSE
 \* the final step exists only to print the finished behaviour exactly once (also in -simulate mode)
 GNext == \/ Len(hist) < Depth /\ Next /\ Allowed /\ hist' = Append(hist, act') /\ UNCHANGED done
